@@ -2,13 +2,13 @@
 HOOK_COMMITS = ["400b3e9"]
 ENGINES = [
     dict(name="driver", path="vf/driver.py", serves_properties=[], kind_free_text="builds targets against /repo's current tree, runs shards on 16 cores, merges reports, known-findings logic, evidence writer"),
-    dict(name="corpus+slots", path="vf/gen.py harness/engine.hpp harness/corpus_main.hpp model/peg_model.hpp", serves_properties=["C01", "C02", "C04", "C05", "C06", "C08", "C09", "C11", "C12", "C13"], kind_free_text="generate-compile-run grammar corpus and slot shapes, observer control with match() wrapper, reference PEG model, rapidcheck scripts"),
+    dict(name="corpus+slots", path="vf/gen.py harness/engine.hpp harness/corpus_main.hpp model/peg_model.hpp", serves_properties=["C01", "C02", "C04", "C05", "C06", "C07", "C08", "C09", "C11", "C12", "C13"], kind_free_text="generate-compile-run grammar corpus and slot shapes, observer control with match() wrapper, reference PEG model, rapidcheck scripts"),
     dict(name="bounds sweep + libFuzzer", path="targets/c03_bounds.cpp", serves_properties=["C03"], kind_free_text="one source built as ASan boundary sweep and as libFuzzer target; rule table of 79 rules x 4 input classes; window-hook and metamorphic oracle inside the target"),
     dict(name="zoo", path="targets/c02_zoo.cpp", serves_properties=["C02", "C03", "C06"], kind_free_text="rule zoo: every hand-written match() rule in rewinding contexts on exhaustive short inputs, invariants from the observer control"),
     dict(name="enumerators+rapidcheck", path="targets/", serves_properties=["C10", "C14", "C15", "C16", "C17", "C18", "C19", "C20"], kind_free_text="total enumeration of finite spaces plus rapidcheck generators, explicit independent oracles"),
 ]
 NOTES = "All checks: ./check <id> --tier quick|thorough [--replay FILE]; seeds from VERIF_SEED; budgets are case counts."
-NOT_YET = {}
+NOT_YET = {}  # every listed property is claimed
 CORPUS_NOTE = "Trusted: reference PEG interpreter model/peg_model.hpp (Ford semantics, ~600 lines), desugaring table in vf/gen.py (transcribed from doc/Rule-Reference.md), the monitor harness/engine.hpp, compilers. Grammar space is sampled (seeded), inputs are exhaustive to the stated length."
 CLAIMS = {
     "C01": dict(
@@ -47,6 +47,12 @@ CLAIMS = {
         text="Exploration: the reported byte/line/column is compared with the formula of the property at every observation point of every run (millions of observations), for grammars whose atoms are chosen around the 'can consume an eol character' compile-time decision, all five policies, both tracking modes, default and non-default initial counters. Two genuine defects are recorded as open findings (cr_crlf eager column after CR LF; lazy tracking inside rematch).",
         design_ref="DESIGN.md section 2 C06",
         note=CORPUS_NOTE),
+    "C07": dict(
+        engine="corpus+slots",
+        technique="differential testing across input classes: generated grammars x inputs x rapidcheck read-size histories and buffer maxima; full trace (hooks, actions with spans as bytes, positions, errors) compared with the eager memory_input run",
+        text="Exploration: every generated grammar (plus derived scanning grammars with and without discard) is parsed on the same bytes through memory eager/lazy, string, argv, buffer_input with a pattern reader (Chunk 1,2,7,64), istream (2,7,64), and on files through read/mmap/cstream incl. the empty file and 4095/4096/4097/8192-byte files; the complete observable tuple must equal the baseline's, std::overflow_error being the only permitted deviation for incremental inputs. Found that buffer_input::require() reads only once (fixed, 06f55a6); two open findings (lazy tracking inside rematch, cr_crlf column) are shared with C06.",
+        design_ref="DESIGN.md section 2 C07",
+        note="Trusted: the eager memory_input run as reference (its correctness is the business of C01-C06), harness/c07.hpp."),
     "C08": dict(
         engine="corpus+slots",
         technique="hook-protocol state machine per rule attempt evaluated by a match()-wrapping observer control (directly, through state_control, and through coverage<>) over generated grammars, slots, throwing actions",
